@@ -313,3 +313,103 @@ def closure_model(prog, cbody, state_types=("usize", "bool")):
         m.returns.append(RetPath(path, facts, ret, nxt, pv.events(roots), pv))
     _CACHE[key] = ("ok", m)
     return m
+
+
+@cached
+def slow_path(prog):
+    from ..idioms import empty_fact, vec_empty_fact
+    from ..sym import overlaps
+    key = "crate::wrap::wrap_single_line_slow_path"
+    body = prog.need_body(key)
+    s = sym_of(body)
+    m = Model(body=body, key=key)
+    P = lambda i: ("param", i, body.arg_names.get(i, "_%d" % i))
+    m.LINE, m.OPT, m.ACCP = P(1), P(2), P(3)
+    m.acc = (3, ("deref",))
+    m.II = ("field", m.OPT, "initial_indent")
+    m.SI = ("field", m.OPT, "subsequent_indent")
+    m.WIDTH = ("field", m.OPT, "width")
+    wb = [b for b, t, c in body.calls() if c.name == "crate::wrap_algorithms::WrapAlgorithm::wrap"]
+    if len(wb) != 1:
+        raise AnchorMissing("%s: expected one call to WrapAlgorithm::wrap (found %d)" % (key, len(wb)))
+    m.wrap_block = wb[0]
+    m.wrap_call = prog.simp(s.call_term(wb[0]), body)
+    lms = [lm for lm in loop_models(prog, body) if lm.kind == "iter" and lm.source == m.wrap_call]
+    if len(lms) != 1:
+        raise AnchorMissing("%s: no loop over the lines returned by WrapAlgorithm::wrap" % key)
+    lm = lms[0]
+    m.lm = lm
+    m.words = lm.item
+    sv = loop_state_vars(body, lm, types=("usize",))
+    if len(sv) != 1:
+        raise AnchorMissing("%s: expected one usize loop-carried offset, found %s" % (key, sorted(n for n, _ in sv.values())))
+    m.idx_pk = next(iter(sv))
+    m.idx = s.val_entry(m.idx_pk, lm.header)
+    m.idx0 = entry_value(prog, body, lm, m.idx_pk)
+    m.acc_hdr = s.val_entry(m.acc, lm.header)
+    m.acc_entry = s.val(m.acc, 0, 0)
+    # the line under construction: every place mutated in the loop other than acc and the iterator
+    roots = set()
+    for b, rs in s.mut_calls().items():
+        if b in lm.blocks:
+            for r in rs:
+                if r[0] != "opaque" and not overlaps(r, m.acc) and r != lm.iter_pk:
+                    roots.add(r)
+    m.result_roots = sorted(roots)
+    trans = loop_system(prog, body, lm, [m.idx_pk], [m.acc] + m.result_roots)
+    recs = []
+    for tr in trans:
+        if tr.kind != "back":
+            continue
+        rec = Model(tr=tr)
+        rec.acc_empty = rec.e_init = rec.e_sub = rec.e_pen = None
+        rec.last = None
+        rec.last_none = False
+        for f in tr.facts:
+            atom, pol = f
+            if atom[0] == "variant" and atom[1][0] == "call" and atom[1][1] == "[]::last" and atom[1][2][0] == m.words:
+                if pol and atom[2] == "Some":
+                    rec.last = ("field", ("as", atom[1], "Some"), "0")
+                if pol and atom[2] == "None":
+                    rec.last_none = True
+            v = vec_empty_fact(f, m.acc_hdr)
+            if v is not None:
+                rec.acc_empty = v
+            v = empty_fact(f, m.II)
+            if v is not None:
+                rec.e_init = v
+            v = empty_fact(f, m.SI)
+            if v is not None:
+                rec.e_sub = v
+        if rec.last is not None:
+            for f in tr.facts:
+                v = empty_fact(f, ("field", rec.last, "penalty"))
+                if v is not None:
+                    rec.e_pen = v
+        rec.res_events = [(b, n, a) for (b, n, a, r) in tr.events if r != m.acc]
+        rec.pushes = [(b, n, a) for (b, n, a, r) in tr.events if r == m.acc]
+        # initial value of the line under construction: value before its first event
+        rec.init = None
+        if rec.res_events:
+            b0 = rec.res_events[0][0]
+            root = [r for (b, n, a, r) in tr.events if b == b0][0]
+            rec.init = tr.view.value_before_term(root, b0)
+        recs.append(rec)
+    m.recs = recs
+    m.trans = trans
+    return m
+
+
+def entry_paths_to(prog, body, block):
+    """Acyclic paths from the entry to `block` (inclusive)."""
+    out = []
+    st = [(0, [0])]
+    while st:
+        x, p = st.pop()
+        if x == block:
+            out.append(p)
+            continue
+        for n in body.cfg.succ[x]:
+            if n not in p:
+                st.append((n, p + [n]))
+    return out
